@@ -130,6 +130,8 @@ def check_pair(w_snap, cfg, old_name, new_name):
         return "C12 update raised %s: %s" % (type(e).__name__, e)
     now = w.regions_impl()
     old, new = cat[old_name], cat[new_name]
+    if resp is not None and hasattr(resp, "status_code"):
+        resp = None if int(resp.status_code) in (200, 204) else ("", int(resp.status_code))
     accepted = resp is None
     exact = G.contains_region(new, old)
     sl = slack(new, old)
